@@ -160,6 +160,10 @@ def stmt_expr(beta: Beta, s, site_expr: str, reflect: bool, x_expr: str | None =
         return f"{S} == _Bad()" if reflect else f"_Bad() == {S}"
     if op == "inbad":
         return f"_Bad() in {S}"
+    if op == "eqnc":
+        return f"{S} == _NoCopy()" if reflect else f"_NoCopy() == {S}"
+    if op == "innc":
+        return f"_NoCopy() in {S}"
     if op == "lebot":
         return f"{S} >= _Bot()" if reflect else f"_Bot() <= {S}"
     if op == "gebot":
@@ -188,6 +192,10 @@ HEADER = "from inline_snapshot import snapshot\nimport verif_rec as _r\n\n"
 BOT = "class _Bot:\n    pass\n\n\n"
 # a value whose deep copy is not equal to it (identity comparison)
 BAD = "class _Bad:\n    def __repr__(self):\n        return '_Bad()'\n\n\n"
+# a value that copy.deepcopy refuses (like objects holding a lock or a generator); it has a usable == and repr
+NOCOPY = ("class _NoCopy:\n    items = ['live']\n\n    def __deepcopy__(self, memo):\n        raise TypeError('cannot pickle _NoCopy object')\n\n"
+          "    def __eq__(self, other):\n        return True if isinstance(other, _NoCopy) else NotImplemented\n\n    __hash__ = None\n\n"
+          "    def __repr__(self):\n        return '_NoCopy()'\n\n\n")
 CHG_WRAPPER = "[{t}, {t2}][_chg[{i}]]"
 
 
@@ -220,6 +228,8 @@ def render(ops, srcs, prog, beta: Beta, imp: bool, rng: random.Random, placement
         out.append(BOT)
     if any(s["op"] in ("eqbad", "inbad") for t in prog for s in t):
         out.append(BAD)
+    if any(s["op"] in ("eqnc", "innc") for t in prog for s in t):
+        out.append(NOCOPY)
     if has_chg(prog):
         out.append("_chg = {%s}\n\n" % ", ".join("%d: 0" % i for i in range(1, n + 1)))
     texts = [src_text(beta, op, src, i) for i, (op, src) in enumerate(zip(ops, srcs), 1)]
@@ -267,7 +277,7 @@ def render(ops, srcs, prog, beta: Beta, imp: bool, rng: random.Random, placement
             refl = rng.random() < 0.5
             site = f"s{s['site']}()"
             xe = None
-            if mutate and s["op"] not in ("none", "chg", "raise", "lebot", "gebot", "eqbad", "inbad", "dget"):
+            if mutate and s["op"] not in ("none", "chg", "raise", "lebot", "gebot", "eqbad", "inbad", "eqnc", "innc", "dget"):
                 out.append(f"    _set(_o, {mval(s['x'])!r})\n")
                 xe = '("t", _o)' if tup else "_o"
             if xe is None and s["op"] == "in" and s["x"] in beta.twins and rng.random() < 0.5:
@@ -288,7 +298,7 @@ def render(ops, srcs, prog, beta: Beta, imp: bool, rng: random.Random, placement
                 out.append(f"        assert {e}\n")
             else:
                 out.append(f"        _r.val({e})\n")
-            if mutate and s["op"] not in ("none", "chg", "raise", "lebot", "gebot", "eqbad", "inbad", "dget"):
+            if mutate and s["op"] not in ("none", "chg", "raise", "lebot", "gebot", "eqbad", "inbad", "eqnc", "innc", "dget"):
                 # mutate the object that was just compared (the next comparison sets it again)
                 out.append(f"    _set(_o, {mval((s['x'] + 1) % len(beta.atoms))!r})\n")
         out.append("\n\n")
